@@ -229,90 +229,3 @@ func LoopBlocks(fn *ssa.Function) [][]*ssa.BasicBlock {
 	}
 	return out
 }
-
-// ReachFact is Reach made path-sensitive in one fact: the constant that a
-// designated expression (loads recognised by isFact; all of them must denote
-// the same unchanging quantity, e.g. a field of by-value options) is known to
-// equal. `known` is the initial knowledge ("" = unknown, otherwise the
-// constant's ExactString). Edges of comparisons fact ==/!= K that contradict
-// the knowledge are infeasible.
-func ReachFact(fn *ssa.Function, from ssa.Instruction, target func(ssa.Instruction) bool, blocked map[Edge]bool, barrier func(ssa.Instruction) bool, isFact func(ssa.Value) bool, known string) ([]*ssa.BasicBlock, bool) {
-	type state struct {
-		b *ssa.BasicBlock
-		k string
-	}
-	type item struct {
-		st    state
-		start int
-		prev  *item
-	}
-	seen := map[state]bool{}
-	var queue []*item
-	if from == nil {
-		s := state{fn.Blocks[0], known}
-		seen[s] = true
-		queue = append(queue, &item{s, 0, nil})
-	} else {
-		b := from.Block()
-		idx := 0
-		for i, in := range b.Instrs {
-			if in == from {
-				idx = i + 1
-			}
-		}
-		queue = append(queue, &item{state{b, known}, idx, nil})
-	}
-	for len(queue) > 0 {
-		it := queue[0]
-		queue = queue[1:]
-		stopped := false
-		for i := it.start; i < len(it.st.b.Instrs); i++ {
-			in := it.st.b.Instrs[i]
-			if target(in) {
-				var path []*ssa.BasicBlock
-				for x := it; x != nil; x = x.prev {
-					path = append([]*ssa.BasicBlock{x.st.b}, path...)
-				}
-				return path, true
-			}
-			if barrier != nil && barrier(in) {
-				stopped = true
-				break
-			}
-		}
-		if stopped {
-			continue
-		}
-		for si, s := range it.st.b.Succs {
-			e := Edge{it.st.b, si}
-			if blocked[e] {
-				continue
-			}
-			nk := it.st.k
-			if r, ok := EdgeRel(e); ok && (r.Op == token.EQL || r.Op == token.NEQ) {
-				x, y := r.X, r.Y
-				if ConstVal(x) != nil {
-					x, y = y, x
-				}
-				if cv := ConstVal(y); cv != nil && isFact(x) {
-					k := cv.ExactString()
-					if r.Op == token.EQL {
-						if it.st.k != "" && it.st.k != k {
-							continue
-						}
-						nk = k
-					} else if it.st.k == k {
-						continue
-					}
-				}
-			}
-			ns := state{s, nk}
-			if seen[ns] {
-				continue
-			}
-			seen[ns] = true
-			queue = append(queue, &item{ns, 0, it})
-		}
-	}
-	return nil, false
-}
